@@ -71,6 +71,12 @@ claim("C18", "fault_enumeration", "prod",
       "Held on the executions of the run.",
       "DESIGN.md §7 C18")
 
+claim("C09", "exploration", "codec",
+      "runtime oracle over encode/decode of generated values (harness injected into package sarama): both encoder passes run separately, decode of own encoding, re-encode, second decode, carried-leaf comparison by single-leaf perturbation, and an independent reference reader for framing, CRC32/CRC32C, varints and nested record data under every codec",
+      "Reflection-filled values driven by a domain table for every protocol body x every version it implements (registry generated from the working tree at check time), plus RecordBatch, MessageSet, Message, Records, member metadata/assignment, sticky user data, response headers, request framing and producer-built batches; 40 values per (body, version) in quick, 2000 in thorough, the first five being fixed corner shapes.",
+      "Held on the values of the run. nil and empty collections compare equal; a field that both passes silently drop looks 'not carried'; flexible-version bodies get no schema-level reference parse beyond the framing.",
+      "DESIGN.md §7 C09")
+
 def main():
     props = [json.loads(l) for l in open(os.path.join(HERE, "properties.jsonl"))]
     ids = [p["id"] for p in props]
